@@ -21,9 +21,9 @@ MAP.update({
  "C16c": ["C16", "C13"], "C16d": ["C16", "C10"], "C18c": ["C18", "C03"], "C18d": ["C18"],
 })
 MAP.update({
- "C02e": ["C02"], "C02f": ["C02"], "C04e": ["C04", "C13"], "C04f": ["C04", "C13"], "C06e": ["C06"], "C06f": ["C06"],
- "C07e": ["C07"], "C07f": ["C07"], "C08e": ["C08"], "C08f": ["C08"], "C09e": ["C09"], "C09f": ["C09"],
- "C11e": ["C11"], "C11f": ["C11"], "C12e": ["C12"], "C12f": ["C12", "C06"], "C14e": ["C14"], "C14f": ["C14"],
+ "C02e": ["C02"], "C02f": ["C02", "C08"], "C04e": ["C04", "C13"], "C04f": ["C04", "C13"], "C06e": ["C06"], "C06f": ["C06"],
+ "C07e": ["C07"], "C07f": ["C07"], "C08e": ["C08", "C09"], "C08f": ["C08"], "C09e": ["C09"], "C09f": ["C09"],
+ "C11e": ["C11"], "C11f": ["C11"], "C12e": ["C12"], "C12f": ["C12", "C06"], "C14e": ["C14", "C09"], "C14f": ["C14", "C10"],
  "C17e": ["C17"], "C17f": ["C17"], "C19e": ["C19"], "C19f": ["C19"], "C20e": ["C20"], "C20f": ["C20"],
 })
 only = sys.argv[1:]
